@@ -22,28 +22,32 @@ Definition encode_metas (ms : list meta) : list N := encode_docs (map marshal_me
 
 (* UPanic = the Go code would index past the end of the slice (binary.LittleEndian.UintNN on a
    short slice); UErr = it returns an error *)
-Inductive ures (A : Type) := UOk (a : A) | UErr | UPanic.
-Arguments UOk {A} a. Arguments UErr {A}. Arguments UPanic {A}.
+Inductive ures (A : Type) := UOk (a : A) | UErr | UPanic | UFuel.
+Arguments UOk {A} a. Arguments UErr {A}. Arguments UPanic {A}. Arguments UFuel {A}.
 
 (* binary.LittleEndian.UintNN(b); b = b[n:] *)
 Definition rd (n : nat) (b : list N) : option (N * list N) :=
   if Nat.ltb (length b) n then None else Some (le_value (firstn n b), skipn n b).
 
-Fixpoint un_tokens (n : nat) (b : list N) : ures (list (list N * list N)) :=
-  match n with
-  | 0 => UOk []
-  | S n' =>
+(* the token loop `for i := 0; i < toksLen; i++`.  Lengths stay in N until they are known to fit
+   (a corrupted length is up to 2^32-1).  Every iteration consumes at least 8 bytes or fails, so
+   fuel = S (length b) is never exhausted (UFuel is distinct from every Go outcome). *)
+Fixpoint un_tokens (f : nat) (n : N) (b : list N) : ures (list (list N * list N)) :=
+  if N.eqb n 0 then UOk [] else
+  match f with
+  | 0 => UFuel
+  | S f' =>
       match rd 4 b with
       | None => UPanic
       | Some (kl, b1) =>
-          if Nat.ltb (length b1) (N.to_nat kl) then UErr          (* malformed key *)
+          if N.ltb (N.of_nat (length b1)) kl then UErr             (* malformed key *)
           else
             let key := firstn (N.to_nat kl) b1 in
             match rd 4 (skipn (N.to_nat kl) b1) with
             | None => UPanic
             | Some (vl, b3) =>
-                if Nat.ltb (length b3) (N.to_nat vl) then UErr    (* malformed value *)
-                else match un_tokens n' (skipn (N.to_nat vl) b3) with
+                if N.ltb (N.of_nat (length b3)) vl then UErr       (* malformed value *)
+                else match un_tokens f' (n - 1)%N (skipn (N.to_nat vl) b3) with
                      | UOk r => UOk ((key, firstn (N.to_nat vl) b3) :: r)
                      | e => e
                      end
@@ -74,10 +78,11 @@ Definition unmarshal_meta (b : list N) : ures meta :=
                       match rd 4 b5 with
                       | None => UPanic
                       | Some (nt, b6) =>
-                          match un_tokens (N.to_nat nt) b6 with
+                          match un_tokens (S (length b6)) nt b6 with
                           | UOk ts => UOk {| m_mid := mid; m_rid := rid; m_size := size; m_tokens := ts |}
                           | UErr => UErr
                           | UPanic => UPanic
+                          | UFuel => UFuel
                           end
                       end
                   end
@@ -94,6 +99,7 @@ Fixpoint unmarshal_all (bs : list (list N)) : ures (list meta) :=
               | UOk m => match unmarshal_all r with UOk ms => UOk (m :: ms) | e => e end
               | UErr => UErr
               | UPanic => UPanic
+              | UFuel => UFuel
               end
   end.
 
